@@ -30,6 +30,9 @@ type GenOpts struct {
 	CoinFlips    bool    // applyProbability strictly between 0 and 1 allowed
 	Disabled     bool    // disabled entries allowed
 	WeirdIds     bool
+	ManyAlts     bool   // MaxAlts is far beyond the usual bound; most requests use most of it
+	NearTies     bool   // values that differ by less than the tolerances code likes to compare with
+	IDPrefix     string // prepended to every criterion and alternative id (long and / or multi-byte identifiers)
 	CurrentChoice float64
 }
 
@@ -73,8 +76,22 @@ func SwarmOpts(r *Rand) GenOpts {
 		o.MaxCrit = r.Range(7, 13)
 		o.MaxBiases = r.Range(3, 6)
 	}
+	o.NearTies = r.Bool(0.12)
+	if r.Bool(0.03) {
+		// many alternatives (code that splits work into chunks, batches or pages only does so
+		// above some size)
+		o.MaxAlts = r.Range(33, 90)
+		o.ManyAlts = true
+	}
+	if r.Bool(0.08) {
+		// identifiers are free text: long ones and ones outside ASCII (error messages quote them,
+		// keys are sorted, joined and split by them)
+		o.IDPrefix = idPrefixes[r.Intn(len(idPrefixes))]
+	}
 	return o
 }
+
+var idPrefixes = []string{"качество_отделки_", "żółć-", "品質", "\U0001F697", "naïve café ", "a_very_long_criterion_identifier_used_by_some_client_", "Ünïcödé·", "ﬁ"}
 
 // Req is a generated request with the structure the oracles need.
 type Req struct {
@@ -116,6 +133,11 @@ func (g *Gen) val() float64 {
 	if g.O.Negatives && r.Bool(0.2) {
 		v = -v
 	}
+	if g.O.NearTies && r.Bool(0.35) {
+		// unequal, but closer than 1e-5 (and sometimes closer than 1e-8) to a value other
+		// alternatives / criteria have exactly
+		v += r.PickF(1e-6, 4e-6, -3e-6, 1e-7, 2e-9, -1e-9, 1e-12)
+	}
 	return v
 }
 
@@ -152,6 +174,9 @@ func (g *Gen) Valid() *Req {
 	na := r.Range(1, g.O.MaxAlts)
 	if r.Bool(0.85) && na < 2 && g.O.MaxAlts >= 2 {
 		na = r.Range(2, g.O.MaxAlts)
+	}
+	if g.O.ManyAlts && r.Bool(0.7) {
+		na = r.Range(g.O.MaxAlts/2, g.O.MaxAlts)
 	}
 	nc := r.Range(1, g.O.MaxCrit)
 	if r.Bool(0.4) {
@@ -199,6 +224,14 @@ func (g *Gen) Valid() *Req {
 				cs[i] = q.Crits[j]
 			}
 			q.Crits = cs
+		}
+	}
+	if g.O.IDPrefix != "" {
+		for i := range q.Alts {
+			q.Alts[i] = g.O.IDPrefix + q.Alts[i]
+		}
+		for i := range q.Crits {
+			q.Crits[i] = g.O.IDPrefix + q.Crits[i]
 		}
 	}
 	gainOnly := q.Method == "owa" || q.Method == "choquetIntegral"
